@@ -18,6 +18,12 @@ CLAIMED = {
                 text="The whole decision function over {attribute found, value present, parse ok, ordering of current vs expires} (24 rows) is extracted from the source by path-enumerating abstract interpretation and compared with the spec row by row, including the boundary second (equality) and monotonicity in the current time; wiring rules pin the parsed string, format, parser type and compared operands, and connect offset/current time to the configuration and the CLI options. chrono's parser and instant ordering are trusted.", ref="5 C05"),
     "C06": dict(cat="proof", tech="static analysis: exhaustive decision tables (marker evaluator, is_skip, skip/unregistered rows of the collection table) + name-use discipline query + clap-expansion query",
                 text="Finite truth tables of MarkerEvaluator::is_removal and is_skip and the skip/unregistered rows of the collection table are extracted exhaustively; every use of a tag/attribute name or value in the library is classified (exact ==, hash lookup, pass-through; substring/case-folding/trimming operations are violations); the clap Arg feeding the target set has no default.", ref="5 C06"),
+    "C08": dict(cat="other", tech="static analysis: decision-table abstract interpretation of tokenizer::get_state restricted to the mismatch paths of partial-match states",
+                text="One clause only (re-examination): on every path where the current character aborts a partially matched start/end delimiter, the outcome forks on `c == first delimiter character` and does not fall back to the base state when equal. Necessary for tags preceded by a delimiter prefix. Self-overlapping delimiters, shortest-end matching and the body-character clause are not decided.", ref="5 C08"),
+    "C09": dict(cat="proof", tech="static analysis: transducer extraction from the parser's fold closure (abstract interpretation per state x character class) + exhaustive product-automaton equivalence with the reference grammar transducer",
+                text="The attribute state machine is extracted from the source (48 state x class transitions + end-of-input actions) and the finite product with the grammar transducer of the property statement is explored completely: on every prefix of every well-formed tag body, of any length, both emit the same word/value spans and accept together; quoted values are opaque; delimiters are stripped by once-only operations. Extraction and the grammar table are the trusted base.", ref="5 C09 / 3.5"),
+    "C10": dict(cat="other", tech="static analysis: linear must-flow by path enumeration of one iteration of parser::tree's loop (abstract interpretation) + name-use discipline query",
+                text="Token linearity only: on each of the enumerated paths of the loop body the fetched token is placed exactly once and the child list of the recursive call is consumed exactly once; parse() starts at token 0. Pairing semantics (innermost match, demotion, order) are not decided.", ref="5 C10"),
     "C14": dict(cat="other", tech="static analysis: abstract-interpretation byte-class tables of the scanners + constant-argument query on scanner call sites + provenance grammar of formatter range endpoints",
                 text="Locality through its mechanisms: scanners stop at the first non-blank when pausing (complete tables), every seam formatter calls them pausing, every returned endpoint is seam / pausing-scan result (+1), dedent ranges are clamped per line. Decides these clauses, not verbatim survival of every stretch.", ref="5 C02/C14"),
     "C17": dict(cat="other", tech="static analysis: decision table of the pending/ready gating + loop-shape query on the pending/ready merge",
